@@ -1157,6 +1157,7 @@ def extra_evidence():
     wit["C14-mssql-drop-constraint-bound-column"] = bound_column_witness()
     ev["finding_witnesses_on_impl"] = wit
     ev["registered_findings"] = sorted(registered_findings())
+    ev["canaries_by_kind"] = dict(CANARY_KINDS)
     return ev
 
 
@@ -1197,3 +1198,123 @@ Definition qspec_of (d:dialect) : qspec :=
     if path:
         open(path, "w").write(txt)
     return txt
+
+
+# ----------------------------------------------------------------------------- canaries
+
+def _unjudged(h):
+    """outside what the decider judges (Spec.judged): a quote=False name that needs quotes in ANY name slot of the env,
+    or the MySQL DROP CHECK visitor with a plain dotted schema"""
+    fl = h.get("flags") or {}
+    if h["kind"] == "quote":
+        return h.get("flag") == "false" and needs_quotes(h["dialect"], h["s"])
+    for slot in SLOTS:
+        if fl.get(slot, "plain") == "false" and h.get(slot) and needs_quotes(h["dialect"], h[slot]):
+            return True
+    if (h["kind"] == "stmt" and h["construct"][0] == "MysqlDropCheck" and h["schema"] and "." in h["schema"]
+            and fl.get("schema", "plain") == "plain"):
+        return True
+    return False
+
+
+def _schema_prefix(h):
+    """the rendered schema prefix of a table reference, computed with the implementation's own helpers"""
+    if not h.get("schema"):
+        return None
+    from alembic.ddl import base
+    c, _, _ = _ctx(h["dialect"], h.get("state", "bare"))
+    try:
+        return base.quote_dotted(nm(h, "schema"), c.dialect.identifier_preparer.quote) + "."
+    except IndexError:
+        return None
+
+
+def _text_corruptions(h, compiled, offline):
+    """(kind, compiled', offline') : statements that no longer read back as the expected tokens"""
+    out = []
+    # 1. the schema no longer qualifies the table reference
+    pre = _schema_prefix(h)
+    if pre and pre in compiled and pre in offline:
+        out.append(("schema-dropped", compiled.replace(pre, "", 1), offline.replace(pre, "", 1)))
+    # 2. an identifier loses its quotes
+    qo = {"mssql": "["}.get(h["dialect"], QUOTE_CHAR[h["dialect"]])
+    qc = QUOTE_CHAR[h["dialect"]]
+    i = compiled.find(qo)
+    if i >= 0:
+        j = compiled.find(qc, i + 1)
+        if j > i + 1:
+            frag = compiled[i:j + 1]
+            if frag in offline:
+                out.append(("identifier-unquoted", compiled.replace(frag, frag[1:-1], 1), offline.replace(frag, frag[1:-1], 1)))
+    # 3. one character of a name changed
+    t = h["table"]
+    if t and t in compiled and t in offline:
+        bad = t + "z"
+        out.append(("name-character-changed", compiled.replace(t, bad, 1), offline.replace(t, bad, 1)))
+    # 4. the as_sql text loses its terminator / batch separator
+    term = {"oracle": "/", "mssql": "GO"}.get(h["dialect"], ";")
+    k = offline.rfind(term)
+    if k >= 0:
+        out.append(("offline-terminator-lost", compiled, offline[:k] + offline[k + len(term):]))
+    # 5. the as_sql text carries the statement twice
+    out.append(("offline-duplicated", compiled, compiled + " " + offline))
+    return [(k, a, b) for k, a, b in out if (a, b) != (compiled, offline)]
+
+
+def _coq_ostep(r, compiled=None, offline=None, construct=None):
+    if "err" in r and compiled is None:
+        o = "(OutErr %s)" % r["err"]
+    else:
+        o = "(OutSql %s %s)" % (enc(r["compiled"] if compiled is None else compiled), enc(r["offline"] if offline is None else offline))
+    return "(mkO %s %s %s %s %s %s %s)" % (coq_construct(construct or r["construct"]), enc(r["table"]), enc(r["column"]),
+                                         cf.opt(r["schema"], enc), enc(r["newname"]), enc(r["newtable"]), o)
+
+
+CANARY_KINDS = {}
+
+
+def canary(h, rec):
+    """corrupted outputs the decider must reject"""
+    out = rec.get("out") or {}
+    if h["kind"] == "params" or _unjudged(h) or classify(h, out) is not None:
+        return []
+    res = []
+    if h["kind"] == "stmt":
+        if "err" in out:
+            # an error turned into success: a pair whose visitor raises must not emit anything
+            if out["err"] in ("ENotImplemented", "ECompile", "EAssert"):
+                res.append(("error-turned-into-statement", "ObsStmt (OutSql %s %s)" % (enc("ALTER TABLE t"), enc("ALTER TABLE t;\n\n"))))
+        else:
+            for k, a, b in _text_corruptions(h, out["compiled"], out["offline"]):
+                res.append((k, "ObsStmt (OutSql %s %s)" % (enc(a), enc(b))))
+    elif h["kind"] == "quote":
+        q = out.get("quoted")
+        if q is not None and h["s"]:
+            qc = QUOTE_CHAR[h["dialect"]]
+            if q != h["s"] or h.get("flag") == "true":          # it was quoted
+                res.append(("identifier-unquoted", "ObsQuote (Some %s)" % enc(q[1:-1])))
+                res.append(("closing-quote-lost", "ObsQuote (Some %s)" % enc(q[:-1])))
+                if qc in h["s"]:
+                    res.append(("escape-lost", "ObsQuote (Some %s)" % enc(q[0] + h["s"] + q[-1])))
+            res.append(("name-character-changed", "ObsQuote (Some %s)" % enc(q[:1] + "z" + q[1:])))
+    elif h["kind"] == "op":
+        steps = out.get("steps") or []
+        idx = [i for i, r in enumerate(steps) if "err" not in r and r["construct"][0] != "Foreign"]
+        if idx:
+            i = idx[-1]
+            r = steps[i]
+
+            def with_step(new):
+                return "ObsOp %s %s" % (cf.lst([new if j == i else _coq_ostep(x) for j, x in enumerate(steps)]),
+                                        cf.opt(out.get("raised")))
+            for k, a, b in _text_corruptions(h, r["compiled"], r["offline"]):
+                res.append((k, with_step(_coq_ostep(r, a, b))))
+            # the statement attributed to another construct (a field of the observation swapped)
+            other = ["DropColumn"] if r["construct"][0] != "DropColumn" else ["RenameTable"]
+            res.append(("construct-swapped", with_step(_coq_ostep(r, construct=other))))
+    final = []
+    for k, term in res:
+        if term != rec.get("cout"):
+            CANARY_KINDS[k] = CANARY_KINDS.get(k, 0) + 1
+            final.append(term)
+    return final
